@@ -1603,7 +1603,7 @@ class Engine:
                 r = Res("ok", r.st, r.val)
             elif r.kind != "exc":
                 raise Unsupported("stray %s" % r.kind)
-            r.st.env = saved
+            r.st.env = dict(saved)        # every outcome gets its own copy of the caller's locals
             out.append(r)
         return out
 
